@@ -15,7 +15,7 @@ def sh(cmd, cwd=None, timeout=3600):
     return p.returncode, (p.stdout + p.stderr)
 
 def validate(pid, k, d):
-    wt = f"{VAL}/{pid}-m{k}"
+    wt = f"{VAL}/{pid}-{k}-{os.getpid()}"
     sh(f"git -C /repo worktree remove --force {wt}")
     os.makedirs(VAL, exist_ok=True)
     rc, out = sh(f"git -C /repo worktree add --detach {wt} HEAD")
@@ -57,7 +57,7 @@ def detect(pid, d):
         m = re.search(r"replay=(\S+)", vio[0])
         if m:
             try:
-                rep = json.load(open("/root/seedrun/verif/" + m.group(1)))
+                rep = json.load(open(os.environ.get("SEEDRUN_BASE", "/root/seedrun") + "/verif/" + m.group(1)))
             except Exception:
                 rep = None
     return {"exit": rc, "lines": lines[-6:], "detected": bool(vio),
@@ -75,7 +75,7 @@ def recheck(want):
         pid = name.split("-")[0]
         if want and pid not in want: continue
         meta = json.load(open(d + "/meta.json"))
-        v = validate(pid, name.split("-m")[1], d)
+        v = validate(pid, name.split("-", 1)[1], d)
         if not v["ok"]:
             meta["status"] = "stale"
             meta["stale_reason"] = {"repo_head": head, "validation": {k: v[k] for k in v if not k.endswith("_tail")},
@@ -104,7 +104,7 @@ def main():
             dst = f"{KEEP}/{pid}-{mk}"
             if os.path.exists(dst + "/meta.json") or os.path.exists(d + "/rejected.json"): continue
             t0 = time.time()
-            v = validate(pid, mk[1:], d)
+            v = validate(pid, mk, d)
             print(pid, mk, "validated" if v["ok"] else "REJECTED", json.dumps({k: v[k] for k in v if not k.endswith("_tail")}), flush=True)
             if not v["ok"]:
                 json.dump(v, open(d + "/rejected.json", "w"), indent=1)
